@@ -95,7 +95,7 @@ theorem WF.of_sameShape {s s' : State} (h : WF s) (e : SameShape s s') : WF s' :
   · rw [e1, e6]; exact h.att_free
   · rw [e1, e6, e8]; exact h.descr_eq
 
-theorem WF_init (impl : Impl) (dims : List Nat) (cap : Nat) : WF (init impl dims cap) := by
+theorem WF_init (impl : Impl) (dims : List Nat) (cap : Option Nat) : WF (init impl dims cap) := by
   constructor
   · simp [init]
   · intro l hl; simp [init]
